@@ -383,16 +383,21 @@ impl Formatter {
         self.writer.write(&nt.name);
         self.writer.write(" = newtype ");
         self.format_type(&nt.underlying.node);
-        self.writer.newline();
 
-        // Methods if any
+        // Methods if any (introduced by ':' after the underlying type)
         if !nt.methods.is_empty() {
+            self.writer.write(":");
+            self.writer.newline();
             self.writer.indent();
-            for method in &nt.methods {
-                self.writer.newline();
+            for (i, method) in nt.methods.iter().enumerate() {
+                if i > 0 {
+                    self.writer.newline();
+                }
                 self.format_method(&method.node);
             }
             self.writer.dedent();
+        } else {
+            self.writer.newline();
         }
     }
 
